@@ -86,6 +86,30 @@ def _inner(f):
     return getattr(f, "best_forecaster_", f)
 
 
+def _num(v):
+    try:
+        return tuple(repr(float(x)) for x in np.round(np.ravel(np.asarray(v, dtype=float)), 10))
+    except Exception:  # noqa
+        return repr(v)[:60]
+
+
+def transformer_digest(t):
+    """digest of a series transformer's fitted parameters"""
+    name = type(t).__name__
+    if hasattr(t, "forecaster_") and t.forecaster_ is not None:
+        return (name, fitted_digest(t.forecaster_))
+    if hasattr(t, "seasonal_") and t.seasonal_ is not None:
+        return (name, _num(t.seasonal_), repr(t._y_index[0]) if getattr(t, "_y_index", None) is not None else None)
+    if hasattr(t, "lambda_"):
+        return (name, _num(t.lambda_))
+    inner = getattr(t, "transformer_", None)
+    if inner is not None:
+        if hasattr(inner, "transform") and hasattr(inner, "is_fitted"):
+            return (name, transformer_digest(inner))
+        return (name, tuple((k, _num(v)) for k, v in sorted(vars(inner).items()) if k.endswith("_") and not k.startswith("_")))
+    return (name,)
+
+
 def fitted_digest(f):
     """digest of fitted parameters (not of remembered data)"""
     name = type(f).__name__
@@ -111,7 +135,7 @@ def fitted_digest(f):
     if getattr(f, "forecasters_", None) is not None:
         return (name, tuple(fitted_digest(m) for m in f.forecasters_), id(getattr(f, "final_regressor_", None)))
     if getattr(f, "steps_", None) is not None:
-        return (name, fitted_digest(f.steps_[-1][1]))
+        return (name, tuple(transformer_digest(t) for _, t in f.steps_[:-1]), fitted_digest(f.steps_[-1][1]))
     if getattr(f, "_forecaster", None) is not None and hasattr(f._forecaster, "is_fitted"):
         return (name, fitted_digest(f._forecaster))
     return (name,)
